@@ -524,7 +524,8 @@ theorem shape_entry_must_be_dictionary (v : YVal) (h : v.isDict = false) :
 theorem shape_entry_needs_decl_or_block (keys : List Str) (vals : List YVal)
     (h1 : keys.contains "block".toList = false) (h2 : keys.contains "decl".toList = false) :
     shapeEntry (.map keys vals) = .reject "declarations:no-decl-or-block" := by
-  simp [shapeEntry, h1, h2]
+  unfold shapeEntry
+  simp only [h1, h2, Bool.false_eq_true, if_false]
 
 /-- `language` other than c / c++ (any letter case) -/
 theorem shape_language (keys : List Str) (vals : List YVal) (s : Str) (h : lookup "language" keys vals = some (.str s))
